@@ -60,22 +60,29 @@ def get_ghe(cfg):
     return _GHE[key]
 
 
-def independent_g(ghe):
-    """the combined curve rebuilt from the long-time table the object holds NOW and its short-time response, on fresh objects
-    (a curve remembered inside the GHE or its GFunction cannot leak into the oracle)"""
+def snapshot_table(gf):
+    return {"B": gf.B, "d": gf.d, "r_b_values": dict(gf.r_b_values), "g_lts": {k: [float(x) for x in v] for k, v in gf.g_lts.items()}, "log_time": [float(x) for x in gf.log_time],
+            "bore_locations": list(gf.bore_locations)}
+
+
+def independent_g(ghe, table=None):
+    """the combined curve rebuilt from the long-time table the object holds NOW (or from `table`, a snapshot taken when the table was
+    handed to the object) and its short-time response, on fresh objects (a curve remembered inside the GHE or its GFunction cannot leak
+    into the oracle)"""
     from ghedesigner.gfunction import GFunction
     from ghedesigner.ground_heat_exchangers import BaseGHE
 
     gf = ghe.gFunction
-    fresh = GFunction(b=gf.B, d=gf.d, r_b_values=dict(gf.r_b_values), g_lts={k: list(v) for k, v in gf.g_lts.items()}, log_time=list(gf.log_time),
-                      bore_locations=gf.bore_locations)
+    t_ = table or snapshot_table(gf)
+    fresh = GFunction(b=t_["B"], d=t_["d"], r_b_values=dict(t_["r_b_values"]), g_lts={k: list(v) for k, v in t_["g_lts"].items()}, log_time=list(t_["log_time"]),
+                      bore_locations=t_["bore_locations"])
     g_l, rbv, _, _ = fresh.g_function_interpolation(ghe.B_spacing / float(ghe.bhe.b.H))
     g_c = GFunction.borehole_radius_correction(list(g_l), rbv, ghe.bhe.b.r_b)
     return BaseGHE.combine_sts_lts(list(gf.log_time), g_c, ghe.radial_numerical.lntts.tolist(), ghe.radial_numerical.g.tolist())
 
 
-def oracle_for(ghe, q_w, t_hours):
-    g = independent_g(ghe)
+def oracle_for(ghe, q_w, t_hours, table=None):
+    g = independent_g(ghe, table)
     return SP.superposed_eft(q_w, t_hours, g, ghe.radial_numerical.t_s, ghe.bhe.soil.k, float(ghe.bhe.b.H), ghe.nbh,
                              ghe.bhe.calc_effective_borehole_resistance(), ghe.bhe.m_flow_borehole, ghe.bhe.fluid.cp, ghe.bhe.soil.ugt)
 
@@ -201,6 +208,46 @@ def run_hybrid(case, res):
     res["sample"] = {"family": "hybrid", "cfg": case["cfg"], "seqs": case["seqs"][:2]}
 
 
+def run_repeat(case, res):
+    """a long-time table stored for ONE height and for another borehole radius than the exchanger's (a library curve reused for another
+    diameter), and the same object asked several times: every answer must be the superposition on the table as it was handed over"""
+    from ghedesigner.enums import TimestepType
+
+    cfg = case["cfg"]
+    coords = coords_for(cfg["N"])
+    gf = ghe_factory.table_gfunction(coords, 5.0 if len(coords) > 1 else 0.075, [cfg["H_table"]], cfg["rb_table"], curve=cfg.get("curve", "base"))
+    table = snapshot_table(gf)
+    ghe = ghe_factory.make_ghe(coords, pipe=cfg.get("pipe", "single"), H=cfg["H_table"], flow_per_bh=0.3, gfunc=gf, months=12, rb=cfg["rb"])
+    q, t = seq_to_arrays([tuple(x) for x in case["seq"]], ghe.nbh)
+    with warnings.catch_warnings():
+        warnings.simplefilter("ignore")
+        for k, what in enumerate(case["calls"]):
+            res["evals"] += 1
+            c1 = dict(case, calls=case["calls"][:k + 1])
+            if what == "hybrid":
+                inject(ghe, q, t)
+                ghe.simulate(method=TimestepType.HYBRID)
+                if not compare(res, c1, ghe.hp_eft, oracle_for(ghe, q, t, table), f"call {k + 1} (hybrid) on a one-height table of radius {cfg['rb_table']}"):
+                    break
+            elif what == "grab":
+                ghe.grab_g_function(ghe.B_spacing / float(ghe.bhe.b.H))
+            elif what == "size":
+                inject(ghe, q, t)
+                try:
+                    ghe.size(method=TimestepType.HYBRID)
+                except Exception:  # noqa: BLE001
+                    pass
+                ghe.bhe.b.H = cfg["H_table"]
+    now = snapshot_table(ghe.gFunction)
+    if now["g_lts"] != table["g_lts"]:
+        k0 = next(iter(table["g_lts"]))
+        res["violations"].append(core.viol("stored_table_changed", case, msg=f"after {case['calls']} the long-time table held by the object differs from the one it was given "
+                                           f"(first value {now['g_lts'][k0][0]!r} vs {table['g_lts'][k0][0]!r})"))
+    res.outcome("repeat")
+    res["nontrivial"] += 1
+    res["sample"] = dict(case)
+
+
 def run_hourly(case, res):
     from ghedesigner.enums import TimestepType
 
@@ -209,6 +256,8 @@ def run_hourly(case, res):
     for s, ln, w in blocks:
         for h in range(s, s + ln):
             loads[h] = w
+    if case.get("int_loads"):
+        loads = [int(x) for x in loads]  # whole Watts given as Python ints (a load file read with int())
     cfg = dict(case["cfg"], loads=None)
     coords = coords_for(cfg["N"])
     gf = ghe_factory.table_gfunction(coords, 5.0 if len(coords) > 1 else 0.075, HEIGHTS, 0.075, curve=cfg.get("curve", "base"))
@@ -279,6 +328,8 @@ def run_case(case):
         run_hybrid(case, res)
     elif fam == "hourly":
         run_hourly(case, res)
+    elif fam == "repeat":
+        run_repeat(case, res)
     return res
 
 
@@ -320,7 +371,13 @@ def main(run: core.Run, only=None):
         hourly.append({"family": "hourly", "cfg": {"N": (1, 4, 25)[k % 3], "pipe": ("single", "coaxial")[k % 2], "months": 12 if k % 2 == 0 else 24}, "blocks": [list(x) for x in b]})
     hourly.append({"family": "hourly", "cfg": {"N": 4, "pipe": "single", "months": 12, "H": 97.5}, "blocks": [[10, 5, 4000.0], [6000, 48, -3000.0]], "retarget": 60.0})
     hourly.append({"family": "hourly", "cfg": {"N": 4, "pipe": "coaxial", "months": 12, "H": 60.0}, "blocks": [[0, 24, -5000.0]], "retarget": 135.0})
+    hourly.append({"family": "hourly", "cfg": {"N": 4, "pipe": "single", "months": 12}, "blocks": [[10, 5, 4000], [6000, 48, -3000], [8000, 2, 1]], "int_loads": True})
+    hourly.append({"family": "hourly", "cfg": {"N": 1, "pipe": "coaxial", "months": 24}, "blocks": [[0, 24, -5000], [4000, 3, 2500]], "int_loads": True})
     run.drive(hourly, family="hourly")
+    rep = [{"family": "repeat", "cfg": {"N": n, "pipe": p, "H_table": 97.5, "rb_table": rbt, "rb": 0.075, "curve": c}, "seq": [[1.0, 730.0], [-0.5, 24.0], [2.0, 6.0]], "calls": calls}
+           for n, p, c in ((4, "single", "base"), (1, "coaxial", "steep")) for rbt in (0.06, 0.075, 0.09)
+           for calls in (["hybrid", "hybrid", "hybrid"], ["grab", "grab", "hybrid"], ["hybrid", "size", "hybrid"])]
+    run.drive(rep if not quick else rep[::2], family="one-height-table-other-radius")
     return run.finish(
         rule="detailed: every load sequence of length 1..4 over 5 load levels x 3 step lengths on real GHE objects; hybrid: real simulate() "
              "with injected sequences over a parameter lattice plus the four consequences; hourly: real simulate(HOURLY) on block profiles; "
@@ -330,5 +387,5 @@ def main(run: core.Run, only=None):
                 "hybrid_parameter_points": len(sel)},
         assumptions=["the combined g-function interpolant, R_b*, t_s and fluid properties are taken from the object (C10, C11, C15 check them)",
                      "the long-time table is a hand-built monotone table (the property quantifies over all monotone tables; three shapes are used)"],
-        require_outcomes=("detailed", "hybrid", "hourly"),
+        require_outcomes=("detailed", "hybrid", "hourly", "repeat"),
     )
